@@ -126,7 +126,7 @@ def lex_space(tier):
     add("string", Words(["a", " ", "\t", "\n", "\U00010000"], 4 if q else 6))
     add("normalizedString", Words(["a", " ", "\t", "\n", "\r"], 4 if q else 6))
     add("token", Words(["a", " ", "\t", "\n", "\r"], 4 if q else 6))
-    add("language", Words(["a", "1", "-", " ", "abcdefgh", "Z"], 5 if q else 6))
+    add("language", Words(["a", "1", "-", " ", "abcdefgh", "Z"], 4 if q else 6))
     for n in ("NMTOKEN", "Name", "NCName", "ID", "IDREF", "ENTITY", "NMTOKENS", "IDREFS", "ENTITIES"):
         add(n, Words(NAME_ALPHA, 3 if q else (5 if n in ("NMTOKEN", "Name", "NCName", "NMTOKENS") else 4)))
     add("QName", Words(["a", "1", ":", "-", "p", "q", " "], 4 if q else 6))
@@ -152,8 +152,8 @@ def lex_space(tier):
     tdefs_dt = len(tdefs) - 1
     enums.append((tdefs_dt, Words(["2000", "-", "02", "29", "T", ":", "00", "Z", "+14:00", ".5"], 4 if q else 5)))
     add("time", Product([["00", "12", "23", "24", "25", "1"], [":"], DT_MIN + ["0"], [":"], DT_SEC, DT_ZONE]),
-        Words(["12", ":", "00", "Z", "+01:00", ".5", "-"], 5 if q else 6))
-    add("date", Product([DT_YEAR, ["-"], DT_MONTH, ["-"], DT_DAY, DT_ZONE]), Words(["2000", "-", "02", "29", "Z", "+14:00", "T"], 5 if q else 6))
+        Words(["12", ":", "00", "Z", "+01:00", ".5", "-"], 4 if q else 6))
+    add("date", Product([DT_YEAR, ["-"], DT_MONTH, ["-"], DT_DAY, DT_ZONE]), Words(["2000", "-", "02", "29", "Z", "+14:00", "T"], 4 if q else 6))
     add("gYearMonth", Product([DT_YEAR, ["-"], DT_MONTH, DT_ZONE]), Words(["2000", "-", "02", "Z", "+14:00", "1"], 4 if q else 6))
     add("gYear", Product([DT_YEAR, DT_ZONE]), Words(["2000", "-", "0", "Z", "+14:00", "1"], 4 if q else 6))
     add("gMonthDay", Product([["--", "-", ""], DT_MONTH, ["-", ""], DT_DAY, DT_ZONE]), Words(["-", "02", "29", "30", "Z", "+14:00"], 4 if q else 6))
@@ -1428,7 +1428,7 @@ def _cov(results):
 
 SPEC = dict(
     level="exploration",
-    rule="Three sub-spaces, each enumerated completely (sizes: quick 210394 + 102464 + 40912, thorough 2697457 + 661483 + 100424 cases; alphabets and bounds per type in docs/c09.md "
+    rule="Three sub-spaces, each enumerated completely (sizes: quick 169004 + 102464 + 40912, thorough 2697457 + 661483 + 100424 cases; alphabets and bounds per type in docs/c09.md "
          "and in the evidence 'bounds'). lex: for each of the 44 built-in types every string of length <= L over a per-type lexical alphabet of 5-11 symbols "
          "(L = 3..5 quick, 4..7 thorough) plus field-wise products (sign x leading zeros x 24 boundary magnitudes x fraction suffix for the 13 integer types; "
          "year x month x day x hour x minute x second x zone for the date/time types; mantissa x exponent for float/double; component products for duration). "
